@@ -4,6 +4,7 @@ import (
 	"bytes"
 	"encoding/json"
 	"fmt"
+	"github.com/huderlem/poryscript/parser"
 	"os"
 	"os/exec"
 	"path/filepath"
@@ -272,11 +273,22 @@ func runC17(ctx *h.Ctx) int {
 			}
 			o.Switches = sw
 		}
-		lib := h.Compile(src, o)
 		var modes []string
 		if k.R.IntN(4) == 0 {
 			modes = append(modes, "default-config-paths")
 		}
+		if k.R.IntN(3) == 0 {
+			modes = append(modes, "omit-default-flags") // -optimize and -lm are on unless switched off
+		}
+		if !useStdin && k.R.IntN(4) == 0 {
+			modes = append(modes, "odd-input-path")
+			o.Path = cliOddInputPath
+		}
+		if k.R.IntN(8) == 0 && len(modes) == 0 {
+			modes = append(modes, "empty-cc") // -cc "" switches AutoVar commands off
+			o.Cfg = parser.CommandConfig{}
+		}
+		lib := h.Compile(src, o)
 		if k.R.IntN(4) == 0 {
 			modes = append(modes, "repeated-switch-keys")
 		}
